@@ -955,6 +955,64 @@ func c01Enumerate(tier string, visit func(c c01Case)) {
 			}
 		}
 	}
+	// (3b) narrow and deep: every operation repeated 3..k times, and for every unordered pair of operations every
+	// word of length 4 that uses both (state that builds up over repeated calls of one kind: counters, part
+	// bodies spliced in place, id allocators).  The save entry point alternates.
+	{
+		maxRep := 6
+		if tier == "thorough" {
+			maxRep = 12
+		}
+		cnt := 0
+		word := func(seq []int) {
+			seq = append([]int{}, seq...)
+			names := make([]string, 0, len(seq)+1)
+			for _, i := range seq {
+				names = append(names, al[i].name)
+			}
+			save := cnt % 2
+			cnt++
+			visit(c01Case{part: "deep-histories", steps: append(names, c01SaveNames[save]), depth: len(seq), save: save,
+				build: func(x *c01Env) {
+					for _, i := range seq {
+						if al[i].enabled != nil && !al[i].enabled(x) {
+							x.note += " disabled-op"
+							continue
+						}
+						al[i].f(x)
+					}
+				}})
+		}
+		for a := range al {
+			for k := 3; k <= maxRep; k++ {
+				if k <= maxLen {
+					continue
+				}
+				seq := make([]int, k)
+				for j := range seq {
+					seq[j] = a
+				}
+				word(seq)
+			}
+		}
+		if maxLen < 4 {
+			for a := range al {
+				for b := a + 1; b < len(al); b++ {
+					for m := 1; m < 15; m++ {
+						seq := make([]int, 4)
+						for j := range seq {
+							if m>>uint(j)&1 == 1 {
+								seq[j] = b
+							} else {
+								seq[j] = a
+							}
+						}
+						word(seq)
+					}
+				}
+			}
+		}
+	}
 	// (4a) templates from documents
 	for _, tp := range c01Templates() {
 		tp := tp
@@ -1504,6 +1562,7 @@ func runC01(r *rep.Run) {
 	r.Bounds["image_placements"] = len(c01Places())
 	r.Bounds["history_alphabet"] = names
 	r.Bounds["history_max_len"] = c01Depth(r.Tier)
+	r.Bounds["deep_histories"] = "every operation repeated up to 6 (thorough 12) times; every word of length 4 over every unordered pair of operations"
 	r.Bounds["template_documents"] = len(c01Templates())
 	r.Bounds["markdown_shapes"] = len(c01MDShapes)
 	per := map[string]int64{}
